@@ -155,6 +155,14 @@ def tamper_family(rng, I, form, full=True):
         for i in range(32 * 8):
             t = bytearray(k0); t[i // 8] ^= 1 << (i % 8)
             emit("flip-key", key=bytes(t))
+    # an oversized caller buffer (e.g. a fixed receive buffer) with a corrupted tag / body
+    if "inplace" not in f and "obj" not in f and not sealed and len(ct) > 16:
+        for extra in (1, 7, 64):
+            big = buf(len(ct) - over + extra)
+            t = bytearray(ct); t[0] ^= 1
+            out.append(("oversized-buf-tag", open_line(form, I, ct=bytes(t), mbuf=big), big))
+            t = bytearray(ct); t[-1] ^= 0x80
+            out.append(("oversized-buf-body", open_line(form, I, ct=bytes(t), mbuf=big), big))
     # truncations (every length) and extensions
     for n in range(len(ct)):
         emit("truncate", ct=ct[:n])
